@@ -46,8 +46,8 @@ func run(c qeng.Case) vt.Verdict {
 
 func TestProp(t *testing.T) {
 	vt.Main(t, vt.Spec[qeng.Case]{
-		ID: "C01",
-		Rule: "rapid-generated histories: 1-7 servers, a subject quorum/async call (plain, per-node, custom return type, both) on a sub-configuration, per node reply/error/reply+error/silence/down, a generated arrival order realised by opening handler gates one at a time and waiting for the resulting quorum-function invocation, threshold/value-dependent/table quorum scripts, optional slow quorum function, context end at a generated position, 0-2 background calls of any kind on overlapping configurations; non-trivial = at least 2 targeted nodes and one of {error/silent/down node, value-dependent or table script, custom type, per-node arguments, background call}; distinct = distinct canonical JSON of the case",
+		ID:           "C01",
+		Rule:         "rapid-generated histories: 1-7 servers, a subject quorum/async call (plain, per-node, custom return type, both) on a sub-configuration, per node reply/error/reply+error/silence/down, a generated arrival order realised by opening handler gates one at a time and waiting for the resulting quorum-function invocation, threshold/value-dependent/table quorum scripts, optional slow quorum function, context end at a generated position, 0-2 background calls of any kind on overlapping configurations; non-trivial = at least 2 targeted nodes and one of {error/silent/down node, value-dependent or table script, custom type, per-node arguments, background call}; distinct = distinct canonical JSON of the case",
 		Gen:          gen,
 		Run:          run,
 		TrackCurrent: true,
